@@ -422,6 +422,36 @@ func genC19(e *emitter, tier string, seed uint64) {
 		c19MsgCase(e, c19RandCriteria(r, 2), c19RandMsg(r))
 		e.count("msg")
 	}
+	// the same kind of constraint at two levels of one tree (top level and inside NOT / OR):
+	// shared per-message state between the levels of the matcher shows only here
+	for i := 0; i < nMsg/4; i++ {
+		mk := func() imap.SearchCriteria {
+			var c imap.SearchCriteria
+			switch i % 4 {
+			case 0:
+				c.Body = []string{pick(r, c19Texts)}
+			case 1:
+				c.Text = []string{pick(r, c19Texts)}
+			case 2:
+				h := pick(r, c19Hdrs)
+				c.Header = []imap.SearchCriteriaHeaderField{{Key: h[0], Value: h[1]}}
+			default:
+				c.SentSince = c19Date(r)
+			}
+			return c
+		}
+		c := mk()
+		switch r.intn(3) {
+		case 0:
+			c.Not = append(c.Not, mk())
+		case 1:
+			c.Or = append(c.Or, [2]imap.SearchCriteria{mk(), mk()})
+		default:
+			c.Not = append(c.Not, imap.SearchCriteria{Or: [][2]imap.SearchCriteria{{mk(), mk()}}})
+		}
+		c19MsgCase(e, c, c19RandMsg(r))
+		e.count("msg:two-levels")
+	}
 	srv := c19NewSrv()
 	defer srv.ts.close()
 	wk := func(w string, tok string) c19Key { return c19Key{tok: tok, wire: w} }
